@@ -81,8 +81,9 @@ func probesOf(s ast.Stmt) []probe {
 			return "", false
 		}
 		if probedFields[sel.Sel.Name] {
-			// receiver must be an identifier (state / runtimeState / s ...)
-			if _, ok := sel.X.(*ast.Ident); ok {
+			// receiver must be a local identifier (state / runtimeState / s ...),
+			// not a package name: crypto.Signer is a type, not the field Signer
+			if id, ok := sel.X.(*ast.Ident); ok && id.Obj != nil {
 				return sel.Sel.Name, true
 			}
 		}
